@@ -44,6 +44,7 @@ type Config struct {
 	Reduced  bool     `json:"reduced"` // small mode: first write is ins k1 v1 or del k1 (key / value symmetry)
 	Part     int      `json:"part"`    // small mode: only histories with id % parts == part
 	Parts    int      `json:"parts"`
+	Compact  bool     `json:"compact"` // fault mode: chronicler history that reaches the inline compaction (>= 100 entries)
 }
 
 // Step is one API call of a history.
@@ -53,6 +54,10 @@ type Step struct {
 	K   int    `json:"k,omitempty"`   // index into Keys (1-based)
 	P   int    `json:"p,omitempty"`   // index into Payloads (1-based)
 	Rep int    `json:"rep,omitempty"` // repeat count (bulk)
+	// close at the chronicler level: keep the chronicler object and let the next Write reopen the writer
+	// lazily ("After Close(), the chronicler can be reopened by calling Write() again") instead of
+	// summoning a new chronicler
+	Same bool `json:"same,omitempty"`
 }
 
 // History is a self-contained, replayable test input.
@@ -196,7 +201,7 @@ func genHistory(r *rand.Rand, id int, level string, cfg *Config) *History {
 		case x < 17:
 			h.Steps = append(h.Steps, Step{Ev: "sync"})
 		case x < 19:
-			h.Steps = append(h.Steps, Step{Ev: "close"})
+			h.Steps = append(h.Steps, Step{Ev: "close", Same: level == "ch" && r.Intn(2) == 0})
 			open = false
 		default:
 			h.Steps = append(h.Steps, Step{Ev: "load"})
@@ -212,6 +217,23 @@ func genHistory(r *rand.Rand, id int, level string, cfg *Config) *History {
 	return h
 }
 
+// genCompact: 2 keys rewritten until the file holds 100 entries: the Write that reaches 100 entries closes the
+// writer and compacts the file through a temporary file and a rename (chronicler_v2.go maybeCompactInline).
+func genCompact(r *rand.Rand, id int) *History {
+	h := &History{ID: id, Level: "ch", Block: 16 * 1024, Named: true, KeySpec: []string{"short:a", "bin:b"},
+		PaySpec: []string{"40:1", "90:2", "9:3"}}
+	h.Steps = append(h.Steps, Step{Ev: "open"})
+	syncAt := 20 + r.Intn(60)
+	for i := 0; i < 100; i++ {
+		h.Steps = append(h.Steps, Step{Ev: "put", Op: "upd", K: 1 + i%2, P: 1 + r.Intn(3)})
+		if i == syncAt {
+			h.Steps = append(h.Steps, Step{Ev: "sync"})
+		}
+	}
+	h.Steps = append(h.Steps, Step{Ev: "load"})
+	return h
+}
+
 // all histories of `n` writes over 2 keys x 2 payloads (ins/del), with every placement of
 // nothing / sync / close+reopen between them; a load after every step
 func genSmall(level string, n int, reduced bool, emit func(*History)) {
@@ -221,6 +243,9 @@ func genSmall(level string, n int, reduced bool, emit func(*History)) {
 	}
 	alpha := []w{{"ins", 1, 1}, {"ins", 1, 2}, {"ins", 2, 1}, {"ins", 2, 2}, {"del", 1, 0}, {"del", 2, 0}}
 	seps := []string{"", "sync", "reopen"}
+	if level == "ch" {
+		seps = append(seps, "reopen-same")
+	}
 	id := 0
 	var rec func(steps []Step, left int)
 	rec = func(steps []Step, left int) {
@@ -242,6 +267,8 @@ func genSmall(level string, n int, reduced bool, emit func(*History)) {
 					s = append(s, Step{Ev: "sync"}, Step{Ev: "load"})
 				case "reopen":
 					s = append(s, Step{Ev: "close"}, Step{Ev: "load"}, Step{Ev: "open"})
+				case "reopen-same":
+					s = append(s, Step{Ev: "close", Same: true}, Step{Ev: "load"}, Step{Ev: "open"})
 				}
 				rec(s, left-1)
 			}
@@ -249,6 +276,8 @@ func genSmall(level string, n int, reduced bool, emit func(*History)) {
 	}
 	rec([]Step{{Ev: "open"}}, n)
 }
+
+func newRand(seed int64) *rand.Rand { return rand.New(rand.NewSource(seed)) }
 
 func main() {
 	if len(os.Args) < 4 || os.Args[1] != "run" {
@@ -312,9 +341,23 @@ func main() {
 		}
 	case cfg.Mode == "bulk":
 		x.runBulk()
+	case cfg.Compact:
+		for i := 0; i < cfg.Count; i++ {
+			x.runAny(genCompact(r, i+1))
+		}
 	default:
 		for i := 0; i < cfg.Count; i++ {
-			x.runAny(genHistory(r, i+1, levels[i%len(levels)], &cfg))
+			h := genHistory(r, i+1, levels[i%len(levels)], &cfg)
+			if cfg.Mode == "fault" { // loads are expensive behind garbage (see crash.go); the tail has them
+				steps := h.Steps[:0]
+				for _, s := range h.Steps {
+					if s.Ev != "load" {
+						steps = append(steps, s)
+					}
+				}
+				h.Steps = steps
+			}
+			x.runAny(h)
 		}
 	}
 	if err := tw.Close(); err != nil {
